@@ -72,6 +72,9 @@ def cases(tier, seed):
     if tier == "thorough":
         # one buffer beyond 32 bits of length (4 GiB + 4099 octets of address space), against the concatenation law
         cs.append(Case("huge", ["crc.huge ffff %d %d" % (2 ** 32 + 4099, 2 ** 31 + 7)], ("huge-length",)))
+        if globals().get("REAL_TIER") == "thorough":
+            # ... and 2^32 + 515 words for the word variant (minutes: thorough tier only)
+            cs.append(Case("huge16", ["crc.huge16 a001 %d %d" % (2 ** 32 + 515, 2 ** 31 + 3)], ("huge-length",)))
         for st in states[:8]:
             for a in range(0, 256, 8):
                 ops = ["crc.buf %04x %02x%02x" % (st, x, b) for x in range(a, a + 8) for b in range(256)]
